@@ -279,6 +279,37 @@ func main() {
 			e.Strs("apiFetchSentID", sent, "grpcV1.Fetch: the Id field of every document sent")
 		}
 
+		// ---- the ID text of search and export responses
+		{
+			var texts []string
+			for _, src := range []struct{ file, recv, fn string }{{"proxyapi/grpc_v1.go", "", "makeProtoDocs"}, {"proxyapi/grpc_export.go", "grpcV1", "Export"}} {
+				f, err := r.Load(src.file)
+				if err != nil {
+					e.Missing(src.file, err)
+					continue
+				}
+				fd := f.Func(src.recv, src.fn)
+				if fd == nil {
+					texts = append(texts, src.fn+": not found")
+					continue
+				}
+				ast.Inspect(fd.Body, func(n ast.Node) bool {
+					switch x := n.(type) {
+					case *ast.AssignStmt:
+						if len(x.Lhs) == 1 && strings.HasSuffix(f.Render(x.Lhs[0]), ".Id") {
+							texts = append(texts, src.fn+": "+f.Render(x.Rhs[0]))
+						}
+					case *ast.KeyValueExpr:
+						if f.Render(x.Key) == "Id" {
+							texts = append(texts, src.fn+": "+f.Render(x.Value))
+						}
+					}
+					return true
+				})
+			}
+			e.Strs("apiResponseIDTexts", texts, "proxyapi: the Id text of every document of a search / export response")
+		}
+
 		// ---- processor.IndexFetch: the per-block read and scatter
 		if f, err := r.Load("frac/processor/fetch.go"); err != nil {
 			e.Missing("processor/fetch.go", err)
